@@ -1128,6 +1128,7 @@ class DiskRefsContainer(RefsContainer):
         if expected is None:
             with suppress(OSError):
                 os.remove(filename)
+            self._remove_empty_parents(name)
             return
         try:
             f = GitFile(filename, "wb")
@@ -1141,6 +1142,28 @@ class DiskRefsContainer(RefsContainer):
                     os.remove(filename)
         finally:
             f.abort()
+        self._remove_empty_parents(name)
+
+    def _remove_empty_parents(self, name: Ref) -> None:
+        """Remove the directories a loose ref leaves empty behind.
+
+        Otherwise a ref named like one of those directories (refs/heads/a
+        after refs/heads/a/b was packed) cannot be created any more.
+        """
+        parent = name
+        while True:
+            try:
+                parent_bytes, _ = parent.rsplit(b"/", 1)
+                parent = Ref(parent_bytes)
+            except ValueError:
+                break
+            if parent == b"refs":
+                break
+            try:
+                os.rmdir(self.refpath(parent))
+            except OSError:
+                # not empty, already gone, ...
+                break
 
     def get_peeled(self, name: Ref) -> ObjectID | None:
         """Return the cached peeled value of a ref, if available.
